@@ -198,22 +198,6 @@ def known_match(finding, failure):
 
 
 def predicate(ctx, prop, name, ok, inp, detail=None, klass=None, keep=25):
-    """ctx.predicate, except that failures covered by a listed finding are STORED only `keep` times per finding and
-    shard (they are all counted): the stored list is bounded, and thousands of repetitions of a listed finding must
-    not crowd out a new failure."""
-    if not ok:
-        if prop not in _KNOWN:
-            import core
-            _KNOWN[prop] = [k for k in core.load_known() if k.get('property') == prop]
-        for k in _KNOWN[prop]:
-            if known_match(k, {'predicate': name, 'input': inp}):
-                seen = ctx.__dict__.setdefault('_known_seen', {})
-                seen[k['id']] = seen.get(k['id'], 0) + 1
-                if seen[k['id']] > keep:
-                    ctx.pred_count += 1
-                    kk = klass or name
-                    ctx.pred_classes[kk] = ctx.pred_classes.get(kk, 0) + 1
-                    ctx.pred_fail_overflow = getattr(ctx, 'pred_fail_overflow', 0) + 1
-                    return
-                break
+    """ctx.predicate.  (Failures covered by a listed finding are counted and stored only a few times per finding
+    and shard by core.Ctx.predicate itself, so that repetitions of a listed finding cannot crowd out a new failure.)"""
     ctx.predicate(name, ok, inp, detail, klass)
